@@ -330,7 +330,9 @@ impl Case32 {
 
 impl Mismatch32 {
     pub fn describe(&self) -> String {
-        let what = if self.at == 0 {
+        let what = if self.got == Outcome::Panic {
+            "a call of this chain (the position of a panic is not recorded)".to_string()
+        } else if self.at == 0 {
             "the constructor".to_string()
         } else if self.at >= self.case.ops.len() {
             format!("call {} (appended by the canonical completion, or solve)", self.at + 1)
